@@ -89,7 +89,8 @@ def _decode_part(A, m, dec, prefix):
 
     for case, asm in (('empty body', {'encoded_payload': Kind('str', empty=True, truthy=False)}),
                       ('non-empty body', {'encoded_payload': Kind('str', empty=False, truthy=True)})):
-        en = A.enum(assume=assume_from(asm), follow_handlers=False)
+        en = A.enum(assume=assume_from(asm), follow_handlers=False, fresh_lists=True,
+                    loop_bound=2)
         ps = [p for p in A.paths(en, dec) if p.outcome != 'cut']
         A.counters['cases'] += 1
         if case == 'empty body':
@@ -103,13 +104,23 @@ def _decode_part(A, m, dec, prefix):
         refusals = 0
         for p in ps:
             writes = [e for e in p.events if e.kind == 'write' and txt(e.target) == 'self.packets']
+            empties = {txt(e.expr) for e in writes if txt(e.expr).startswith('_list_L')
+                       and e is not writes[-1]}
             appends = [e for e in p.events if e.kind == 'call' and
-                       txt(e.expr).startswith('self.packets.')]
+                       (txt(e.expr).startswith('self.packets.') or
+                        any(txt(e.expr).startswith(x + '.') for x in empties))]
             A.check(not appends, prefix + '.all-or-nothing',
                     'self.packets is never filled incrementally', A.site(dec),
                     key='decode-incremental', detail=[txt(e.expr) for e in appends],
                     behaviour='a failure in one packet lets the earlier packets of the body through')
-            final = [e for e in writes if txt(e.expr) != '[]']
+            final = [e for e in writes if txt(e.expr) != '[]' and
+                     not (txt(e.expr).startswith('_list_L') and e is not writes[-1])]
+            if final and txt(final[-1].expr).startswith('_list_L') and \
+                    not any(txt(c.expr).startswith(txt(final[-1].expr) + '.append(')
+                            for c in p.events if c.kind == 'call'):
+                if not any(e.kind == 'iter' and e.pol for e in p.events) and \
+                        any(e.kind == 'iter' for e in p.events):
+                    continue    # zero-iteration unrolling of the building loop
             if p.outcome == 'raise':
                 A.check(not final, prefix + '.all-or-nothing',
                         'a refused body leaves no packets behind', A.site(dec),
@@ -126,8 +137,28 @@ def _decode_part(A, m, dec, prefix):
             builds += 1
             lst = final[-1].expr
             c = match('[packet.Packet(encoded_packet=_x) for _x in _parts]', lst)
-            if c is None or not isinstance(lst, ast.ListComp) or len(lst.generators) != 1 or \
-                    lst.generators[0].ifs:
+            if c is None and txt(lst).startswith('_list_L'):
+                # a local list filled in a loop over the split result and assigned once
+                L = txt(lst)
+                apps = [unawait(e.expr) for e in p.events if e.kind == 'call' and
+                        txt(e.expr).startswith(L + '.append(')]
+                its = [e for e in p.events if e.kind == 'iter' and e.pol]
+                okl = bool(apps) and len(apps) == len(its) and final[-1] is writes[-1]
+                parts_e = its[0].expr if its else None
+                for k_, a_ in enumerate(apps):
+                    m_ = match('packet.Packet(encoded_packet=_elem(_parts, _k))', a_.args[0]) \
+                        if len(a_.args) == 1 else None
+                    okl = okl and m_ is not None and txt(m_['parts']) == txt(parts_e) and \
+                        txt(m_['k']) == str(k_)
+                last_app = max([i for i, e in enumerate(p.events) if e.kind == 'call' and
+                                txt(e.expr).startswith(L + '.append(')] or [-1])
+                wi = [i for i, e in enumerate(p.events) if e is final[-1]][0]
+                if okl and wi > last_app:
+                    c = {'parts': parts_e}
+                    lst = None
+            if c is None or (lst is not None and (
+                    not isinstance(lst, ast.ListComp) or len(lst.generators) != 1 or
+                    lst.generators[0].ifs)):
                 A.undecided(prefix + '.decode', 'packet list construction recognised', A.site(dec),
                             'self.packets = %s' % txt(lst))
                 continue
